@@ -1,4 +1,5 @@
 import SppModel.Generated.ReaderArith
+import SppModel.Frozen.ReaderArith
 import SppModel.Model.Plan
 /-!
 # Source tie — `FilReader.read_plan` block arithmetic (C01, C06, C07, C11, C18)
@@ -9,10 +10,10 @@ The theorems state that the hand model `Plan.planBlocks` (which C01's theorems a
 what the translated source text computes.
 -/
 namespace SppModel.Tie
-open SppModel SppModel.Plan SppModel.Generated.ReaderArith
+open SppModel SppModel.Plan SppModel.Frozen.ReaderArith
 
 /-- the fragment was recognised on this run -/
-theorem plan_translated : ∀ f ∈ translationFailures, f.1 ∉ ["FilReader_planArith"] := by decide
+theorem plan_translated : ∀ f ∈ Generated.ReaderArith.translationFailures, f.1 ∉ ["FilReader_planArith"] := by decide
 
 /-- the plan arithmetic of `FilReader.read_plan` IS the model's `geff / nreads / lastread` with its two rejections -/
 theorem filreader_plan_arith (g n k : Nat) :
